@@ -2084,6 +2084,70 @@ func (b *boundsAn) minConst(v ssa.Value, at *ssa.BasicBlock, depth int) (res int
 			}
 		}
 	}
+	// a product or sum whose operands are both handed to a validator that recomputes the same expression from its
+	// parameters and bounds it: checkExtent(sectorsPerFat, bytesPerSector, ...) tests sectorsPerFat*bytesPerSector
+	if bo, ok := v.(*ssa.BinOp); ok && (bo.Op == token.MUL || bo.Op == token.ADD) && depth < 12 {
+		inX, inY := map[ssa.Value]bool{}, map[ssa.Value]bool{}
+		for _, a := range b.aliases(bo.X) {
+			inX[a] = true
+		}
+		for _, a := range b.aliases(bo.Y) {
+			inY[a] = true
+		}
+		for _, blk := range fn.Blocks {
+			for _, ins := range blk.Instrs {
+				c, ok := ins.(*ssa.Call)
+				if !ok {
+					continue
+				}
+				g := c.Call.StaticCallee()
+				if g == nil || g.Blocks == nil || !b.w.inModule(g) || errResultIndex(g.Signature) < 0 || len(c.Call.Args) != len(g.Params) {
+					continue
+				}
+				ix, iy := -1, -1
+				for i, a := range c.Call.Args {
+					if inX[a] || inX[stripConv(a)] {
+						ix = i
+					}
+					if inY[a] || inY[stripConv(a)] {
+						iy = i
+					}
+				}
+				if ix < 0 || iy < 0 || ix == iy {
+					continue
+				}
+				iff, nilIdx := errNilEdge(fn, c)
+				if iff == nil || !edgeDominates(iff.Block(), nilIdx, at) {
+					continue
+				}
+				px, py := ssa.Value(g.Params[ix]), ssa.Value(g.Params[iy])
+				allInstrs(g, func(gi ssa.Instruction) {
+					gb, ok := gi.(*ssa.BinOp)
+					if !ok || gb.Op != bo.Op {
+						return
+					}
+					gx, gy := unspillParam(stripConv(gb.X)), unspillParam(stripConv(gb.Y))
+					if !((gx == px && gy == py) || (gx == py && gy == px)) {
+						return
+					}
+					lo, any := int64(-1), false
+					for _, ret := range returnsOf(g) {
+						if classifyReturn(ret) == RetError {
+							continue
+						}
+						any = true
+						k := b.minConst(gb, ret.Block(), depth+3)
+						if lo < 0 || k < lo {
+							lo = k
+						}
+					}
+					if any && lo > 0 {
+						up(lo)
+					}
+				})
+			}
+		}
+	}
 	switch x := v.(type) {
 	case *ssa.BinOp:
 		kx, ky := b.minConst(x.X, at, depth+1), b.minConst(x.Y, at, depth+1)
